@@ -445,3 +445,7 @@ def run_arith(repo, rep, prop):
             else:
                 rep.undecided(prop + '.L.w', i.construct, i.where, i.detail)
     rep.floor(prop + '.L.w', n, 12)
+    # L.n: normalisation does not move a group to another indentation (the ribbon is measured from the indentation of the line the
+    # group starts on) and keeps every forced break (document model: denotation includes where each flat group is measured from)
+    from . import docmodel
+    rep.floor(prop + '.L.n', docmodel.run(repo, rep, {'normalisation': prop + '.L.n', 'constructors': prop + '.L.n'}), 2)
